@@ -113,6 +113,8 @@ def run_case(case):
                     tS = o.get("tS", 1)
                     order = ev.get("order") or sorted(ev["w"].keys())
                     args = [[v, [[py_val(p[0], tS, False), py_val(p[1], S, ev.get("flt", False))] for p in ev["w"][v]]] for v in order]
+                    for v in sorted(ev.get("extra", {})):
+                        args.append([v, [list(p) for p in ev["extra"][v]]])
                     keep = copy.deepcopy(args)
                     ev["ret"] = []; ev["same"] = True
                     r = spec.update(*args) if a == "update" else spec.evaluate(*args)
@@ -130,6 +132,8 @@ def run_case(case):
                     spec = specs[oi]
                     order = ev.get("order") or sorted(ev["s"].keys())
                     args = [[v, py_val(ev["s"][v], S, ev.get("flt", False))] for v in order]
+                    for v in sorted(ev.get("extra", {})):
+                        args.append([v, ev["extra"][v]])
                     if ev.get("share"):
                         if ev["share"] not in shared:
                             shared[ev["share"]] = args
